@@ -15,7 +15,7 @@ def run(ctx, replay=None):
         kernlib.mc_replay(ctx, "KernelMC_c02.cfg", {"Delays = {0, 1}": "Delays = {1}"}, label="KernelMC/c02 2x3 delay 1")
         kernlib.gen_validate(ctx, 1500, KINDS)
     else:
-        kernlib.mc_replay(ctx, "KernelMC_c02.cfg", label="KernelMC/c02 2x3")
+        kernlib.mc_replay(ctx, "KernelMC_c02.cfg", {'"spawn", "yield"': '"spawn", "spawnnp", "yield"'}, label="KernelMC/c02 2x3 +unprobed spawns")
         kernlib.mc_replay(ctx, "KernelMC_c02.cfg", {"MaxProc = 2": "MaxProc = 3", "MaxOps = 3": "MaxOps = 2", "MaxEv = 8": "MaxEv = 9"},
                           label="KernelMC/c02 3x2")
         kernlib.gen_validate(ctx, 20000, KINDS)
